@@ -6,10 +6,11 @@ import (
 	"github.com/theparanoids/ysshra/verifharness/lib/gen"
 	sh "github.com/theparanoids/ysshra/verifharness/lib/shimhist"
 	"sync"
+	"time"
 )
 
 func main() {
-	ev.Main("C08", "exploration", func(r *ev.Run) {
+	ev.MainIsolated("C08", "exploration", 60*time.Minute, func(r *ev.Run) {
 		r.Rule("seeded histories of 6..30 operations interleaving lock / unlock (right, wrong, empty, 1 KiB, prefix and extension of the right passphrase) with list, signers, sign, add, remove, remove-all, add-hardware-cert, from every mix of in-memory and underlying identities, in both modes; variants where the keyring is locked/unlocked directly (also underneath a locked shim, so that the keyring is readable while the shim is locked) and where the underlying agent refuses lock/unlock requests (failure or garbage reply). Model: shim lock flag x keyring lock state. Plus the locked-operation matrix: one fixed state (underlying key, underlying certificate, two in-memory hardware certificates) x both modes x every operation on every kind of target (20) x an optional second operation: refused, and after the right unlock the listing (with comments), the signers and the underlying agent are what they were, and every identity still signs. distinct_nontrivial = distinct histories that issued at least 3 operations while the shim was locked")
 		r.Assume("the keyring cannot be read while it is locked: 'changes nothing' is observed (a) through the readable keyring when it was unlocked underneath the shim's lock and (b) by comparing the pre-lock snapshot with the content after unlock")
 		gen.Pool()
